@@ -252,6 +252,8 @@ static std::vector<Op> table()
     OP("stream.append (several doublings)", f.stream_prefix_ok = true; S big; E(big.assign(5000, 'b')); f.ss->append(big.data(), big.size()));
     OP("stream<<string/int/double", f.stream_prefix_ok = true; *f.ss << *f.s[1] << 123456789 << 1e300 << *f.s[2]; f.ss->append_char('-', 400));
     OP("stream<<wstring", f.stream_prefix_ok = true; *f.ss << f.stdw << f.b16v; f.ss->append_char('-', 400));
+    OP("stream emptied then regrown", f.stream_prefix_ok = true; f.ss->truncate(); E(f.ssv.clear()); S big; E(big.assign(3000, 'r')); f.ss->append(big.data(), big.size()));
+    OP("stream erased then regrown", f.stream_prefix_ok = true; f.ss->erase(f.ss->size()); E(f.ssv.clear()); f.ss->append_char('e', 2500));
     OP("stream.to_string", ST::string x = f.ss->to_string(); ST::string y = f.ss->to_string(false); (void)x; (void)y);
     OP("stream move then append", f.stream_moved = true; ST::string_stream other(std::move(*f.ss)); other.append_char('y', 1000); f.ss->append_char('z', 700));
     // --- iostream
